@@ -114,6 +114,13 @@ def seqOp (mode : GameMode) (pool : List (List (PathControlPoint Float32))) (st 
     pure { st with sp := st.sp.expectedDistMut (fun _ => parseLen arg), out := "-" :: st.out }
   else if kind == "x" then
     pure { st with sp := st.sp.clearCurve, out := "-" :: st.out }
+  else if kind == "k" then
+    -- `sp.clone_from(&SliderPath::new(mode, pool[i], L))` (derived `Clone`: every field, the empty cache included)
+    pure { st with sp := SliderPath.new mode (pool.getD idxLen.1 []) idxLen.2, out := "-" :: st.out }
+  else if kind == "K" then
+    -- the source has cached its curve before being cloned from
+    let (_, src) ← (SliderPath.new mode (pool.getD idxLen.1 []) idxLen.2 : SliderPath Float32 Float).getCurve curveFuel
+    pure { st with sp := src, out := "-" :: st.out }
   else throw .panic
 
 end CurveCmd
